@@ -89,6 +89,17 @@ impl PhysLayer {
         Ok(length)
     }
 
+    /// how long `write` will wait before it starts transmitting (serial inter-frame silence)
+    pub(crate) fn time_until_tx(&self) -> std::time::Duration {
+        match &self.layer {
+            #[cfg(feature = "serial")]
+            PhysLayerImpl::Serial(_, inter_char_delay, Some(last_activity)) => (*last_activity
+                + *inter_char_delay)
+                .saturating_duration_since(tokio::time::Instant::now()),
+            _ => std::time::Duration::ZERO,
+        }
+    }
+
     pub(crate) async fn write(
         &mut self,
         data: &[u8],
